@@ -6,20 +6,12 @@
    reports which tables of the model's post-state differ from the implementation's and
    whether the outcome class agrees; it also evaluates the invariant monitors on the
    implementation's post-state. All comparison logic lives here, in Gallina. *)
-From SaoVerif Require Import Base.Prelude Base.Ints Model.Did.
-
-Definition tables := list (string * value).
+From SaoVerif Require Import Base.Prelude Base.Ints Model.Did Model.DidSpec Model.DidMon Model.Types.
 
 Definition dec_tables (v : value) : option tables :=
   match v with
   | VL l => mapM (fun e => match e with VL [VS n; x] => Some (n, x) | _ => None end) l
   | _ => None
-  end.
-
-Fixpoint tget (n : string) (t : tables) : option value :=
-  match t with
-  | [] => None
-  | (k, v) :: r => if String.eqb k n then Some v else tget n r
   end.
 
 (* names of the tables on which the model's post-state differs from the implementation's *)
@@ -31,18 +23,6 @@ Definition diff_tables (model impl : tables) : list string :=
                 end) [] model.
 
 (** ** did family *)
-Definition did_tables (s : DidState) : tables :=
-  match enc_did s with
-  | VL l => combine (map (fun n => "did." +:+ n) did_table_names) l
-  | _ => []
-  end.
-
-Definition did_of_tables (t : tables) : option DidState :=
-  match mapM (fun n => tget ("did." +:+ n) t) did_table_names with
-  | Some l => dec_did (VL l)
-  | None => None
-  end.
-
 Record Ctx := { cx_height : Z; cx_chain : string; cx_time : Z; cx_seed : Z }.
 Definition dec_ctx (v : value) : option Ctx :=
   match v with
@@ -50,20 +30,34 @@ Definition dec_ctx (v : value) : option Ctx :=
   | _ => None
   end.
 
-(* result: [status; model outcome class; differing tables; detail] *)
+(* result: ["compared"; family; model outcome class; outcome agrees; differing tables;
+            detail; failed monitors (on the implementation's post-state); state changed] *)
 Definition res_undecodable (what : string) : value := VL [VS "undecodable"; VS what].
 
+Definition tables_eqb (a b : tables) : bool :=
+  match diff_tables a b with [] => Nat.eqb (length a) (length b) | _ => false end.
+
 Definition check_did_step (cx : Ctx) (pre : tables) (op : DidOp) (outcome : string) (post : tables) : value :=
-  match did_of_tables pre with
-  | None => res_undecodable "did pre-state"
-  | Some s =>
+  match did_of_tables pre, did_of_tables post with
+  | Some s, Some ipost =>
+      if negb (op_sane_b op) then VL [VS "outofdomain"; VS "did parser oracle"] else
       let r := did_handle (cx_chain cx) op s in
       let '(cls, s', detail) :=
         match r with
         | inr s' => ("ok", s', "")
         | inl e => ("rejected", s, e)
         end in
-      VL [VS "compared"; VS cls; vbool (String.eqb cls outcome); vLS (diff_tables (did_tables s') post); VS detail]
+      VL [VS "compared"; VS "did"; VS cls; vbool (String.eqb cls outcome); vLS (diff_tables (did_tables s') post);
+          VS detail;
+          vLS (failed_monitors (did_monitors (cx_chain cx) ipost ++
+                 (* per-operation monitor: a Binding the implementation accepted must carry a
+                    proof text that names the DID (C17, finding D17) *)
+                 [("did.binding_proof_names_did",
+                   match op with
+                   | OpBinding _ m => negb (String.eqb outcome "ok") || proof_names_did m
+                   | _ => true end)]));
+          vbool (negb (tables_eqb pre post))]
+  | _, _ => res_undecodable "did state"
   end.
 
 Definition is_did_op (op : value) : bool :=
